@@ -10,7 +10,9 @@
 EXTENDS Integers, Sequences, FiniteSets, TLC
 
 CONSTANTS Dev,
-          Known      \* names registered in PARSER_FUNCTIONS of the working tree
+          Known,     \* names registered in PARSER_FUNCTIONS of the working tree
+          Sites,     \* the language configurations: a sequence of namespace tables (see below)
+          NsFns      \* names whose result depends on the namespace of a title (all spellings x positions)
 
 (* ---- argument atoms (abstract texts; the harness holds the concrete text) ---- *)
 Atoms == {"EMPTY", "BLANK", "WORD", "NEG", "ZERO", "ONE", "SEVEN", "HUGE", "FRAC",
@@ -48,6 +50,7 @@ ClassOf(name) ==
     [] name \in {"padleft", "padright"} -> "padlr"
     [] name = "#pad" -> "pad"
     [] name = "#expr" -> "expr"
+    [] name = "#invoke" -> "invoke"
     [] name \in {"#time", "#timel", "#dateformat", "#formatdate"} -> "time"
     [] name \in {"#property", "#statements", "fullurl", "fullurle"} -> "net"
     [] OTHER -> "total"        \* reads its arguments defensively
@@ -89,12 +92,122 @@ CallD(name, argv, title, D) ==
          ELSE IF Arg(argv, 2) = "SEVEN" /\ Arg(argv, 3) = "EXPEMPTY"
               THEN AsIs("PadEmptyPaddingDivides", "ZeroDivisionError", "value")
          ELSE InBand("value")
+    \* #invoke with fewer than two arguments never reaches Lua: "too few arguments", the call text comes
+    \* back; the as-is code builds that text from invoke_args[0] also when there is no argument at all
+    [] c = "invoke" ->
+         IF Len(argv) = 0 THEN AsIs("InvokeNeedsModuleName", "IndexError", "fallback")
+         ELSE IF Len(argv) = 1 THEN InBand("fallback")
+         ELSE InBand("lua")                                 \* the Lua sandbox (C06..C09): not part of this universe
     [] c = "expr" -> IF Arg(argv, 1) \in ExprValue THEN InBand("value") ELSE InBand("error")
     [] c = "time" -> InBand("value-or-error")
     [] c = "net" -> InBand("value")                        \* network helper stubbed to "no result"
     [] OTHER -> InBand("value")
 
 Call(name, argv, title) == CallD(name, argv, title, Dev)
+
+(* ======================= language configurations ========================= *)
+(* A context is configured for one language: data/<lang>/namespaces.json.  A  *)
+(* site is [lang, syn, ns], ns a sequence of entries                          *)
+(*   [key   canonical (English) name, the key of NAMESPACE_DATA,             *)
+(*    id, name (local name), aliases (sequence), istalk,                     *)
+(*    lower  the key in lower case (a fact about letters TLC cannot compute)] *)
+(* syn = TRUE: a shipped table with namespaces of attested kinds added by the *)
+(* harness (a subject namespace without talk namespace, like Flow's Topic).   *)
+(* The page titles and argument texts of this part of the universe are built  *)
+(* from the table: namespace j of site s, spelled in one of its forms, used   *)
+(* as the page title or as the first argument.                                *)
+Tab(s) == Sites[s].ns
+E(s, j) == Sites[s].ns[j]
+KeySet(s) == {E(s, j).key : j \in DOMAIN Tab(s)}
+ById(s, id) == {k \in DOMAIN Tab(s) : E(s, k).id = id}
+\* structure of the table around entry j
+Negative(s, j) == E(s, j).id < 0                                  \* Special, Media: no pages, no talk
+HasTalkKey(s, j) == (E(s, j).key \o " talk") \in KeySet(s)        \* the "X" / "X talk" naming pattern
+NoTalkPartner(s, j) == ~E(s, j).istalk /\ E(s, j).id >= 0         \* e.g. Topic (2600) of the French table
+                       /\ ~\E k \in ById(s, E(s, j).id + 1) : E(s, k).istalk
+NoSubject(s, j) == E(s, j).istalk /\ ById(s, E(s, j).id - 1) = {}
+IrregularKey(s, j) == ~E(s, j).istalk /\ E(s, j).id > 0 /\ ~HasTalkKey(s, j)   \* "Portail" / "Discussion Portail"
+\* MediaWiki: the talk namespace of a subject namespace is the one with the following id; a talk
+\* namespace, a namespace with a negative id and a subject namespace that has no talk namespace in
+\* the table are their own.  Total: never names an id that the table does not hold.
+TalkIdx(s, j) ==
+  IF E(s, j).istalk \/ Negative(s, j) \/ NoTalkPartner(s, j) THEN j
+  ELSE CHOOSE k \in ById(s, E(s, j).id + 1) : E(s, k).istalk
+SubjectIdx(s, j) ==
+  IF ~E(s, j).istalk \/ NoSubject(s, j) THEN j ELSE CHOOSE k \in ById(s, E(s, j).id - 1) : TRUE
+\* the namespaces around which the table is not the regular  X (2n) / X talk (2n+1)  pattern
+Structural(s, j) == Negative(s, j) \/ NoTalkPartner(s, j) \/ NoSubject(s, j) \/ IrregularKey(s, j)
+                    \/ (E(s, j).istalk /\ ~NoSubject(s, j) /\ IrregularKey(s, SubjectIdx(s, j)))
+\* the same, as words for a report
+FactsOf(s, j) ==
+  (IF Negative(s, j) THEN {"negative id (no pages, no talk namespace)"} ELSE {})
+  \cup (IF NoTalkPartner(s, j) THEN {"subject namespace without a talk namespace in this table"} ELSE {})
+  \cup (IF NoSubject(s, j) THEN {"talk namespace whose subject namespace is not in this table"} ELSE {})
+  \cup (IF IrregularKey(s, j) THEN {"the key of its talk namespace is not <key> talk"} ELSE {})
+  \cup (IF E(s, j).istalk THEN {"talk namespace"} ELSE {})
+  \cup (IF E(s, j).name # E(s, j).key THEN {"local name differs from the key"} ELSE {})
+
+Forms == {"key", "local", "alias", "lower"}
+FormsOf(s, j) == {"key", "lower"} \cup (IF E(s, j).name # E(s, j).key THEN {"local"} ELSE {})
+                 \cup (IF E(s, j).aliases # <<>> THEN {"alias"} ELSE {})
+\* j = 0: no namespace of the table ("bare": no prefix, "unknown": a prefix the table does not hold)
+UnknownPrefix == "Xyzzy"
+Rest == "Abc/def"
+Spelled(s, j, form) ==
+  CASE form = "key" -> E(s, j).key
+    [] form = "local" -> E(s, j).name
+    [] form = "alias" -> E(s, j).aliases[1]
+    [] form = "lower" -> E(s, j).lower
+    [] form = "unknown" -> UnknownPrefix
+    [] OTHER -> ""
+TitleText(s, j, form) == IF form = "bare" THEN Rest ELSE Spelled(s, j, form) \o ":" \o Rest
+\* where the namespace goes: the title of the page (call without argument), the first argument as a
+\* title, as the decimal id, as the bare name
+Positions == {"title", "arg", "argid", "argname"}
+PageTitle(s, j, form, pos) == IF pos = "title" THEN TitleText(s, j, form) ELSE Rest
+Arg1(s, j, form, pos) ==
+  CASE pos = "arg" -> TitleText(s, j, form)
+    [] pos = "argid" -> ToString(E(s, j).id)
+    [] pos = "argname" -> Spelled(s, j, form)
+    [] OTHER -> ""
+
+\* the as-is lookup of the talk functions (deviation TalkNamespaceLookup): a prefix that is a key of the
+\* table is followed by indexing the table with prefix + " talk"
+AsIsTalkLookupFails(s, j, form) ==
+  j > 0 /\ Spelled(s, j, form) \in KeySet(s) /\ (Spelled(s, j, form) \o " talk") \notin KeySet(s)
+
+CallSD(name, s, j, form, pos, D) ==
+  IF name \notin Known THEN InBand("unrecognized")
+  ELSE
+  LET c == ClassOf(name) IN
+  CASE c = "unimplemented" -> InBand("unimplemented")
+    [] c = "talkpagename" /\ pos = "title" /\ "TalkNamespaceLookup" \in D /\ AsIsTalkLookupFails(s, j, form) -> Escapes("KeyError")
+    [] c = "talkspace" /\ pos \in {"title", "arg"} /\ "TalkNamespaceLookup" \in D /\ AsIsTalkLookupFails(s, j, form) -> Escapes("KeyError")
+    [] c = "invoke" -> IF pos = "title" THEN (IF "InvokeNeedsModuleName" \in D THEN Escapes("IndexError") ELSE InBand("fallback"))
+                       ELSE InBand("fallback")
+    [] c = "expr" -> IF pos = "argid" THEN InBand("value") ELSE InBand("error")
+    [] c = "time" -> InBand("value-or-error")
+    [] OTHER -> InBand("value")          \* whatever the table looks like around the namespace
+CallS(name, s, j, form, pos) == CallSD(name, s, j, form, pos, Dev)
+TotalS(name, s, j, form, pos) == CallS(name, s, j, form, pos).kind = "inband"
+
+\* beyond the statement (DRIFT where the code differs): the text MediaWiki documents for the
+\* namespace magic words, every spelling of a namespace denoting that namespace
+NoVal == [k |-> "none", txt |-> ""]
+Val(txt) == [k |-> "text", txt |-> txt]
+ValS(name, s, j, form, pos) ==
+  IF j = 0 \/ name \notin Known THEN NoVal
+  ELSE IF E(s, j).id = 0 THEN NoVal
+  ELSE
+  CASE name = "TALKSPACE" /\ pos \in {"title", "arg"} -> Val(E(s, TalkIdx(s, j)).name)
+    [] name = "SUBJECTSPACE" /\ pos \in {"title", "arg"} -> Val(E(s, SubjectIdx(s, j)).name)
+    [] name = "NAMESPACE" /\ pos \in {"title", "arg"} -> Val(E(s, j).name)
+    [] name = "NAMESPACENUMBER" /\ pos \in {"title", "arg"} -> Val(ToString(E(s, j).id))
+    [] name = "TALKPAGENAME" /\ pos = "title" -> Val(E(s, TalkIdx(s, j)).name \o ":" \o Rest)
+    [] name = "FULLPAGENAME" /\ pos = "title" -> Val(E(s, j).name \o ":" \o Rest)
+    [] name = "ns" /\ pos \in {"argid", "argname"} -> Val(E(s, j).name)
+    [] OTHER -> NoVal
+
 
 \* M: every call ends in-band
 Total(name, argv, title) == Call(name, argv, title).kind = "inband"
